@@ -37,6 +37,14 @@ class ObjFrame:
         self.cache = {}
 
 
+class MapFrame:
+    """namespace frame standing for a caller mapping some of whose keys are
+    computed on every access (env.Map with computed keys)"""
+
+    def __init__(self, name, keys):
+        self.name, self.keys = name, keys
+
+
 class Model:
     def __init__(self, env, case, plain=None):
         self.env = env
@@ -58,6 +66,10 @@ class Model:
                     if v is not E.UNDEF:
                         f.cache[name] = v
                         return v
+                continue
+            if isinstance(f, MapFrame):
+                if name in f.keys:
+                    return self.invoke('%s.%s' % (f.name, name))
                 continue
             if name in f:
                 return f[name]
@@ -221,6 +233,9 @@ class Model:
         if n.get('objattrs') is not None:
             self.ref(n['src'])
             self.frames.append(ObjFrame(n['src']['site'], n['objattrs']))
+        elif n.get('mapkeys') is not None:
+            self.ref(n['src'])
+            self.frames.append(MapFrame(n['src']['site'], n['mapkeys']))
         else:
             self.frames.append(dict(n.get('binds', {})))
         try:
